@@ -318,6 +318,10 @@ func Generate(seed uint64) *Scenario {
 	if r.Intn(4) == 0 {
 		sc.Root.Synopsis = []string{"<src>", "<dst>", "<mode>"}[:1+r.Intn(3)]
 	}
+	if r.Intn(6) == 0 { // completion callbacks on the program itself, next to its commands
+		sc.Root.ArgCompFns = 1 + r.Intn(2)
+		sc.Root.ArgCompPanic = r.Intn(4) == 0
+	}
 	sc.Root.Opts = genOpts(r, taken, 2+r.Intn(7), reqBias)
 	if r.Intn(4) == 0 {
 		sc.Root.ArgComp = []string{"apple", "apricot", "banana"}
